@@ -8,3 +8,4 @@ open RV.C05
 #print axioms unescape_escapeWith
 #print axioms pnlocal_roundtrip
 #print axioms resolve_relativize
+#print axioms escape_table_is_echar
